@@ -14,7 +14,7 @@ GEN = []
 LEAN = ["Ymq.Props.C19"]
 AUDIT = "Ymq.Audit.C19"
 THEOREMS = ["Ymq.C19." + t for t in (
-    "crt_symmetric crt_sparse_symmetric perm_sign").split()]
+    "crt_symmetric crt_sparse_symmetric perm_sign snf_ops_unimodular_partial snf_diag").split()]
 HYPOTHESES = ["inv_mod64_spec (theorems crt_symmetric, crt_sparse_symmetric): arith::inv_mod64(a, p) returns Some(i) with i < p and "
               "a*i = 1 (mod p) whenever gcd(a, p) = 1 (property C08)"]
 PROFILES = ["release", "chk"]
@@ -450,6 +450,8 @@ def det_request(M, d=None):
     """im_det line with the estimate derived from the exact determinant"""
     if d is None:
         d = bareiss(M)
+    if d == 0:
+        return None, 0
     e = log2int(d)
     return f"im_det {enc(M)} {f64bits(e)} {rust_round(e)}", d
 
@@ -885,7 +887,9 @@ def snf_cases(rng, scale):
         elif c == 1:
             yield Case(f"snf_normalize {st} {i} {rng.randrange(n)}")
         elif c == 2:
-            yield Case(f"snf_eliminate {st} {i} {j} {rng.randrange(n)}")
+            # submul_n debug-asserts that its source row is in echelon form: on other states only the checked
+            # profile has a defined answer
+            yield Case(f"snf_eliminate {st} {i} {j} {rng.randrange(n)}", profiles=(None if style == 1 and i < j else ["chk"]))
         elif c == 3:
             # submul_n needs the source rows in echelon form (debug assertion)
             tri = [[(rng.randrange(h) if jj > ii else (1 if jj == ii else 0)) for jj in range(n)] for ii in range(n)]
